@@ -26,9 +26,12 @@ RULE = ('(1) histories: 1-8 random operations (valid parse/split/format '
         'calls with every filter, calls that raise: bad options, wrong '
         'input type, recursion overflow under a lowered limit; abandoned '
         'parsestream generators; clear()/set_SQL_REGEX()/add_keywords() '
-        'followed by default_initialization(); bursts of concurrent calls) '
-        'after which a 17-probe observation set must equal the reference '
-        'taken in a fresh process. (2) N in {2,4,8} threads run identical '
+        'followed by default_initialization(); a privately configured '
+        'second Lexer object; bursts of concurrent calls) after which the '
+        'probe observation set (c20_trial.PROBES, run in listed or shuffled '
+        'order) must equal the reference taken in a fresh process; the '
+        'reference itself is taken twice, probes in listed and in reverse '
+        'order, and both must agree. (2) N in {2,4,8} threads run identical '
         'and disjoint inputs through parse/split/format with a 1 us switch '
         'interval; each result must equal the sequential one. (3) first '
         'calls: fresh process per trial, 2-8 threads released by a barrier, '
@@ -196,6 +199,44 @@ def op_reconfigure(rng, src):
     return 'reconfigure+default_initialization'
 
 
+_probe_words = None
+
+
+def op_private_lexer(rng, src):
+    """A second, privately configured Lexer object used next to the
+    process-wide default one (which is not touched): per-class or module
+    level state of the lexer shows in the probes afterwards."""
+    global _probe_words
+    if _probe_words is None:
+        import re as _re
+        ws = set()
+        for p in c20_trial.PROBES:
+            ws.update(_re.findall(r'[A-Za-z_]\w*', p[1]))
+        _probe_words = sorted(ws)
+    from sqlparse import keywords as kwmod
+    lx = lexer.Lexer()
+    try:
+        lx.clear()
+        if rng.random() < 0.5:
+            lx.set_SQL_REGEX(kwmod.SQL_REGEX)
+        else:
+            lx.set_SQL_REGEX([(r'\w+', lx.is_keyword
+                               if hasattr(lx, 'is_keyword') else T.Name),
+                              (r'\s+', T.Whitespace), (r'.', T.Error)])
+        lx.add_keywords({'TIMESTAMP': T.Name.Builtin, 'SHARD': T.Keyword,
+                         'ZORK': T.Keyword.DML, 'FOOBAR': T.Keyword,
+                         'SELECT': T.Name, 'FROM': T.Name.Builtin,
+                         'END': T.Name, 'T': T.Keyword, 'A': T.Keyword})
+        words = list(_probe_words)
+        rng.shuffle(words)
+        text = ' '.join(words + [w.upper() for w in words[:20]])
+        list(lx.get_tokens(text))
+        list(lx.get_tokens(src.text()))
+    except Exception:
+        pass
+    return 'private-lexer'
+
+
 def op_concurrent(rng, src):
     texts = [src.text() for _ in range(3)]
 
@@ -270,7 +311,7 @@ OPS = [op_valid, op_valid, op_valid, op_bad_option, op_wrong_type,
        op_interleaved, op_heavy_format, op_heavy_format, op_encoding,
        op_bulk,
        op_recursion, op_abandon, op_reconfigure, op_reconfigure,
-       op_concurrent]
+       op_concurrent, op_private_lexer]
 
 
 def history_trial(ctx, ref, src):
@@ -281,7 +322,10 @@ def history_trial(ctx, ref, src):
         kinds.append(rng.choice(OPS)(rng, src))
     rec.case()
     rec.monitor('history_differential')
-    obs = c20_trial.observe_all(sqlparse)
+    order = list(range(len(ref)))
+    if rng.random() < 0.5:
+        rng.shuffle(order)
+    obs = c20_trial.observe_all(sqlparse, order)
     if obs != ref:
         bad = [i for i in range(len(ref)) if obs[i] != ref[i]]
         i = bad[0]
@@ -470,6 +514,25 @@ def shard(ctx):
             err, (refres or {}).get('harness_error', '')[-300:]))
         return
     ref = refres['obs']
+    # the probes themselves are a history: the same probes run in the
+    # opposite order in another fresh process must give the same answers
+    rc, rev, err = fresh(['ref', 'reverse'])
+    if rev is None or 'obs' not in rev:
+        rec.inconclusive_('reversed reference process failed: %s' % (err,))
+        return
+    rec.case()
+    rec.monitor('history_differential')
+    if rev['obs'] != ref:
+        bad = [i for i in range(len(ref)) if rev['obs'][i] != ref[i]]
+        i = bad[0]
+        rec.violation('history', {'history': ['probes-in-reverse-order'],
+                                  'probe': i},
+                      'in a fresh process probe %d (%s %r) gives %s when the '
+                      'other probes ran before it and %s when they ran after '
+                      'it' % (i, c20_trial.PROBES[i][0],
+                              c20_trial.PROBES[i][1][:40],
+                              str(ref[i])[:120], str(rev['obs'][i])[:120]),
+                      key=('h', 'probe-order', i))
     src = grammar_texts.Source(rng)
     k = 0
     while ctx.running():
